@@ -104,6 +104,35 @@ def rule_frame_normalisation(ck, m, rid):
     ck.ob(rid, vs, okv, "_valid_size: frame dimensions must be normalised with max(t + d, 1) over (frame_size, get_terminal_size())", stmt="_valid_size: frame normalisation")
 
 
+SIZE_NAMES = ("size", "render_size", "rendered_size", "padded_size", "terminal_size", "frame_size", "_size", "_padded_size", "_original_size", "original_size")
+
+
+def rule_sizes_compared_per_axis(ck, m, rid, rels):
+    """An ordering comparison (<, <=, >, >=) between size pairs is lexicographic in Python - `(w, h) <= (cols, lines)` ignores the height
+    whenever w < cols. Sizes must be compared per axis. (Tuples of constants - version numbers - are ordered lexicographically on purpose.)"""
+    def sizeish(e):
+        if isinstance(e, ast.Tuple) and len(e.elts) >= 2:
+            return not all(isinstance(x, ast.Constant) for x in e.elts)
+        nm = e.attr if isinstance(e, ast.Attribute) else getattr(e, "id", None)
+        return nm in SIZE_NAMES
+    n_seen = 0
+    for rel in rels:
+        for q, fn in m.file(rel).defs.items():
+            if not isinstance(fn, ast.FunctionDef):
+                continue
+            for n in body_walk(fn):
+                if isinstance(n, ast.Compare) and any(isinstance(o, (ast.Lt, ast.LtE, ast.Gt, ast.GtE)) for o in n.ops):
+                    n_seen += 1
+                    ops = [n.left] + list(n.comparators)
+                    bad = [norm(o) for o in ops if sizeish(o) or sizeish(trace(fn, o, use=n))]
+                    # (a version tuple compared with constants is fine)
+                    if bad and any(isinstance(o, ast.Tuple) and all(isinstance(x, ast.Constant) for x in o.elts) for o in ops):
+                        bad = []
+                    ck.ob(rid, enclosing_stmt(n), not bad, f"{q}: `{short(n, 60)}` orders size pairs lexicographically (the second dimension is only looked at when the first ones are equal): "
+                          "sizes must be compared per axis", stmt=f"{q}: no lexicographic comparison of sizes: {short(n, 50)}")
+    ck.expect(n_seen >= 10, f"ordering comparisons scanned: {n_seen}")
+
+
 def rule_format_render(ck, m, rid):
     """Shape invariants of the old-API padding (shared with C17.R3: the urwid canvas re-derives the same split)."""
     fr = m.get(CM, "BaseImage._format_render")
@@ -176,6 +205,7 @@ def rule_format_render(ck, m, rid):
             else:
                 ck.ob(rid, ret, not nt_ and not nb_, f"_format_render [{tag}]: no vertical padding when the height is not larger", stmt=f"_format_render: no vertical padding [{tag}]")
     ck.expect(n_cases >= 12, f"_format_render: expected >= 12 padded cases, found {n_cases}")
+    rule_sizes_compared_per_axis(ck, m, rid, (CM,))
 
 
 def run(ck, m):
@@ -412,6 +442,7 @@ def run(ck, m):
               f"{q}: the frame is padded iff its padded size (from the same padding and the frame's own size) differs from its render size; found condition(s) {[(norm(trace(f, t))[:90], b_) for t, b_ in gs]}",
               stmt=f"{q}: pads iff sizes differ, padded size computed from the frame")
     rule_format_render(ck, m, "R5")
+    rule_sizes_compared_per_axis(ck, m, "R5", (PD, RN, IT))
     pp = m.get(PD, "Padding.pad")
     sums = emit.summaries(pp)
     rp = find_exprs("render.replace('\\n', $f)", body_walk(pp))
